@@ -1967,7 +1967,18 @@ class ProjectFileParser:
         if preprocess_macros:
             text = preprocess_tjp(text)
 
-        tree = self.parser.parse(text)
+        try:
+            tree = self.parser.parse(text)
+        except Exception as exc:
+            # The message lists the tokens the grammar would have accepted; lark keeps them in
+            # a set, whose order changes with the hash seed of the process. The same text gives
+            # the same diagnostic.
+            for name, store in (("expected", "expected"), ("accepts", "_accepts"), ("allowed", "allowed")):
+                with contextlib.suppress(Exception):
+                    value = getattr(exc, name, None)
+                    if isinstance(value, (set, frozenset, list, tuple)):
+                        setattr(exc, store, sorted(value))
+            raise
         data = TJPTransformer().transform(tree)
         builder = ModelBuilder()
         project = builder.build(data)
